@@ -530,6 +530,7 @@ func c15Run(c *Case) {
 	switch {
 	case c.Idx == 0:
 		c15ContainsLaw(c)
+		round8Hand(c, "C15")
 	case c.Idx <= c15NPairs:
 		c15Pairs(c, c.Idx-1)
 	default:
